@@ -886,6 +886,7 @@ int main(int argc, char **argv)
             leaves.push_back({"[[1,2,3],[0,1,2],[0,0,2]]",
                               immutable_dense_matrix(3, 3, {I_(1), I_(2), I_(3), I_(0), I_(1), I_(2), I_(0), I_(0), I_(2)})});
             leaves.push_back({"[[1,2,0],[2,1,2]]", immutable_dense_matrix(2, 3, {I_(1), I_(2), I_(0), I_(2), I_(1), I_(2)})});
+            leaves.push_back({"[[1,2,0]]", immutable_dense_matrix(1, 3, {I_(1), I_(2), I_(0)})});
         }
     }
     for (auto &l : leaves)
@@ -913,6 +914,9 @@ int main(int argc, char **argv)
     pl.n = n0;
     pl.counter_names = CN;
     pl.desc = [&](long long i) { return "predicates/size/trace of " + SS.S[i].recipe; };
+    pl.crash_sig = [&](long long i, const std::string &oc) {
+        return std::string(oc.find("Segmentation") != std::string::npos ? "crash:SIGSEGV" : oc) + ":props(" + kind(*SS.S[i].e) + ")";
+    };
     pl.body = [&](long long i, Ctx &c) {
         c.eval();
         c.outcome("props(" + kind(*SS.S[i].e) + ")");
